@@ -1,45 +1,15 @@
-(* C17 -- UNBOUNDED proof that every dangling branch target produced by the CFG-construction model
-   is a pending block id that was lost (still pending at the end of the function, or overwritten
-   by a later fixup_block_id_noop).  Invariant: alias list well formed (chains only go forward),
-   alias sources are dead ids, every raw target and every watched id resolves to a block id / the
-   pending id / a dropped id / an id still owed by an enclosing construct. *)
+(* C17 -- UNBOUNDED proof that every branch of every function produced by the CFG-construction
+   model targets an existing block of that function.  Invariant: alias list well formed (chains
+   only go forward), alias sources are dead ids, every raw target and every watched id resolves to
+   a block id / the pending id / an id still owed by an enclosing construct; at the end of a
+   function nothing is owed and finalize materialises the pending id. *)
 From Aelys Require Import Base.Tactics Model.AirLower Proofs.AirLowerProofs.
 Local Open Scope N_scope.
 
-(* break / continue only inside a loop of the same function *)
-Fixpoint sc_e (e : sexpr) : bool :=
-  match e with
-  | EAtom | EIdent _ => true
-  | EOp _ args => sc_es args
-  | EShort _ l r => sc_e l && sc_e r
-  | EIfE c t e => sc_e c && sc_e t && sc_e e
-  | ELam _ _ body => sc_ss false body
-  end
-with sc_es (es : sexprs) : bool :=
-  match es with ENil => true | ECons e r => sc_e e && sc_es r end
-with sc_s (inl : bool) (x : sstmt) : bool :=
-  match x with
-  | SExpr e | SLet _ e | SRetE e => sc_e e
-  | SBlock b => sc_ss inl b
-  | SIf c t => sc_e c && sc_s inl t
-  | SIfElse c t e => sc_e c && sc_s inl t && sc_s inl e
-  | SWhile c b => sc_e c && sc_s true b
-  | SFor _ lo hi st b => sc_e lo && sc_e hi && sc_e st && sc_s true b
-  | SForEach _ it b => sc_e it && sc_s true b
-  | SRet | SNop => true
-  | SBreak | SContinue => inl
-  | SFn _ _ body => sc_ss false body
-  end
-with sc_ss (inl : bool) (b : sstmts) : bool :=
-  match b with SNil => true | SCons x r => sc_s inl x && sc_ss inl r end.
-Definition breaks_scoped (p : sstmts) : bool := sc_ss false p.
+(* dangling targets of one function *)
+Definition dangling (bl : list block) : list N :=
+  filter (fun t => negb (memN t (map fst bl))) (flat_map (fun b => targets (snd b)) bl).
 
-Definition fn_good (f : fn_out) : bool :=
-  has_entry (f_blocks f) && unique_ids (f_blocks f) && dangling_all_lost f.
-Definition prog_good (p : sstmts) : bool := forallb fn_good (lower p).
-
-(* ---- unbounded glue: if every dangling target is a lost id and none of them is branched to,
-   all targets exist *)
 Lemma no_dangling_targets_exist bl : dangling bl = [] -> targets_exist bl = true.
 Proof.
   intro H. unfold targets_exist. apply forallb_forall. intros b Hb.
@@ -50,22 +20,6 @@ Proof.
     - apply in_flat_map. exists b. split; assumption.
     - rewrite E. reflexivity. }
   rewrite H in Hin. contradiction.
-Qed.
-
-Lemma all_lost_none_known f :
-  dangling_all_lost f = true -> known_class f = false -> dangling (f_blocks f) = [].
-Proof.
-  unfold dangling_all_lost, known_class. intros Ha Hk.
-  destruct (dangling (f_blocks f)) as [|t r]; [reflexivity|exfalso].
-  cbn [forallb existsb] in *. apply andb_true_iff in Ha as [Ha _].
-  apply orb_false_iff in Hk as [Hk _]. congruence.
-Qed.
-
-Lemma good_not_known_wf f : fn_good f = true -> known_class f = false -> wf_fn f = true.
-Proof.
-  unfold fn_good, wf_fn, wf_cfg. intros H Hk.
-  apply andb_true_iff in H as [H Hl]. apply andb_true_iff in H as [He Hu].
-  rewrite He, Hu. cbn. apply no_dangling_targets_exist. apply all_lost_none_known; assumption.
 Qed.
 
 (* ---- alias chains *)
@@ -135,7 +89,7 @@ Definition froms (s : st) : list N := map fst (aliases s).
 Definition rawT (s : st) : list N := flat_map (fun b => targets (snd b)) (blocks s).
 Definition CE (s : st) (t : N) : N := chain_end (aliases s) t.
 Definition good (O : list N) (s : st) (x : N) : Prop :=
-  In x (ids s) \/ pending s = Some x \/ In x (dropped s) \/ In x O.
+  In x (ids s) \/ pending s = Some x \/ In x O.
 
 (* O: owed ids (allocated, to be placed by an enclosing construct); W: watched ids (must keep
    resolving to something that exists or is lost); d: number of loop-stack entries of this function *)
@@ -146,16 +100,18 @@ Record T (O W : list N) (d : nat) (s : st) : Prop := mkT {
   t_watch : forall w, In w W -> good O s (CE s w);
   t_loop : forall h e, In (h, e) (firstn d (loops s)) -> In h W /\ In e W;
   t_owed : forall o, In o O -> avail s o /\ ~ In o (froms s);
-  t_depth : (d <= length (loops s))%nat }.
+  t_depth : d = length (loops s) }.
 
-Definition lost_ok (f : fn_out) : Prop := dangling_all_lost f = true.
+Definition lost_ok (f : fn_out) : Prop := dangling (f_blocks f) = [].
 Definition OutOK2 (s : st) : Prop := Forall lost_ok (out s).
 Definition Inv (O W : list N) (d : nat) (s : st) : Prop := U s /\ OutOK s /\ OutOK2 s /\ T O W d s.
+
+Lemma inv_T O W d s : Inv O W d s -> T O W d s. Proof. intros (_ & _ & _ & H). exact H. Qed.
 
 Lemma good_owed O W d s o : T O W d s -> In o O -> good O s (CE s o).
 Proof.
   intros HT Ho. unfold CE. rewrite chain_end_notfrom; [|apply (t_owed _ _ _ _ HT o Ho)].
-  right; right; right. exact Ho.
+  right; right. exact Ho.
 Qed.
 
 Lemma good_id O W d s x : T O W d s -> In x (ids s) -> good O s (CE s x).
@@ -168,14 +124,14 @@ Qed.
 (* states that differ only in dirty / names *)
 Lemma same_inv O W d s s' : Inv O W d s ->
   blocks s' = blocks s -> next s' = next s -> pending s' = pending s -> out s' = out s ->
-  aliases s' = aliases s -> loops s' = loops s -> dropped s' = dropped s -> Inv O W d s'.
+  aliases s' = aliases s -> loops s' = loops s -> Inv O W d s'.
 Proof.
-  intros (Hu & Ho & Ho2 & HT) Eb En Ep Eo Ea El Ed.
+  intros (Hu & Ho & Ho2 & HT) Eb En Ep Eo Ea El.
   destruct (same_step s s' Hu Ho Eb En Ep Eo) as (Hu' & Ho' & _ & _).
   split; [exact Hu'|split; [exact Ho'|split]].
   - unfold OutOK2. rewrite Eo. exact Ho2.
   - destruct HT as [A B C D D2 E F]. unfold froms, rawT, CE, good, avail, ids in *.
-    constructor; unfold froms, rawT, CE, good, avail, ids; rewrite ?Eb, ?En, ?Ep, ?Ea, ?El, ?Ed; assumption.
+    constructor; unfold froms, rawT, CE, good, avail, ids; rewrite ?Eb, ?En, ?Ep, ?Ea, ?El; assumption.
 Qed.
 
 Lemma emit_inv O W d s : Inv O W d s -> Inv O W d (emit s).
@@ -204,7 +160,7 @@ Proof.
 Qed.
 
 Lemma good_mono O O' s x : (forall y, In y O -> In y O') -> good O s x -> good O' s x.
-Proof. intros Hs [H|[H|[H|H]]]; unfold good; auto. Qed.
+Proof. intros Hs [H|[H|H]]; unfold good; auto. Qed.
 
 Lemma inv_add O W d s v : Inv O W d s -> avail s v -> ~ In v (froms s) -> Inv (v :: O) W d s.
 Proof.
@@ -244,12 +200,12 @@ Qed.
 Lemma good_seal O tm s x : U s -> good O s x -> good O (seal tm s) x.
 Proof.
   intros Hu Hg. unfold good, seal, ids in *. destruct (pending s) as [p|] eqn:Ep; cbn.
-  - destruct Hg as [H|[H|[H|H]]]; try tauto; try (inversion H; subst; tauto).
-  - destruct Hg as [H|[H|[H|H]]]; try tauto; try discriminate.
+  - destruct Hg as [H|[H|H]]; try tauto; try (inversion H; subst; tauto).
+  - destruct Hg as [H|[H|H]]; try tauto; try discriminate.
 Qed.
 
 Lemma seal_aliases tm s : aliases (seal tm s) = aliases s /\ loops (seal tm s) = loops s
-  /\ dropped (seal tm s) = dropped s /\ out (seal tm s) = out s.
+  /\ out (seal tm s) = out s.
 Proof. unfold seal. destruct (pending s); cbn; repeat split; reflexivity. Qed.
 
 Lemma seal_inv O W d tm s : Inv O W d s -> (forall t, In t (targets tm) -> good O s (CE s t)) ->
@@ -257,7 +213,7 @@ Lemma seal_inv O W d tm s : Inv O W d s -> (forall t, In t (targets tm) -> good 
 Proof.
   intros (Hu & Ho & Ho2 & HT) Htm.
   destruct (seal_step tm s Hu Ho) as (Hu' & Ho' & Ln & St).
-  destruct (seal_aliases tm s) as (Ea & El & Ed & Eo).
+  destruct (seal_aliases tm s) as (Ea & El & Eo).
   split; [exact Hu'|split; [exact Ho'|split]].
   - unfold OutOK2. rewrite Eo. exact Ho2.
   - destruct HT as [A B C D D2 E F].
@@ -320,25 +276,23 @@ Proof.
   assert (Hal : aliases (fixup o s) = aliases s ++ [(old, o)]).
   { unfold fixup. rewrite Eb. cbn. destruct (old =? o) eqn:X; [apply N.eqb_eq in X; congruence|reflexivity]. }
   assert (Hpe : pending (fixup o s) = pending s) by (unfold fixup; rewrite Eb; reflexivity).
-  assert (Hdr : dropped (fixup o s) = dropped s) by (unfold fixup; rewrite Eb; reflexivity).
   assert (Hlo : loops (fixup o s) = loops s) by (unfold fixup; rewrite Eb; reflexivity).
   assert (Hou : out (fixup o s) = out s) by (unfold fixup; rewrite Eb; reflexivity).
   split; [unfold OutOK2; rewrite Hou; exact Ho2|].
   inversion ND as [|? ? Hold NDr]; subst.
   assert (G : forall x, good O s x -> good (rm o O) (fixup o s) (if old =? x then o else x)).
-  { intros x Hg. unfold good, ids in *. rewrite Hbl, Hpe, Hdr, Eb in *. cbn [map fst] in *.
+  { intros x Hg. unfold good, ids in *. rewrite Hbl, Hpe, Eb in *. cbn [map fst] in *.
     destruct (old =? x) eqn:X.
     - left. left. reflexivity.
-    - apply N.eqb_neq in X. destruct Hg as [[H|H]|[H|[H|H]]].
+    - apply N.eqb_neq in X. destruct Hg as [[H|H]|[H|H]].
       + congruence.
       + left; right; exact H.
       + right; left; exact H.
-      + right; right; left; exact H.
       + destruct (N.eq_dec x o) as [->|Hne']; [left; left; reflexivity|].
-        right; right; right. apply rm_In. split; assumption. }
+        right; right. apply rm_In. split; assumption. }
   constructor; unfold froms, CE, rawT in *; rewrite ?Hal, ?Hlo.
   - apply wf_al_snoc; [exact A|exact Hoo|exact Nf].
-  - intros f Hf. rewrite map_app in Hf. cbn in Hf. rewrite En, Hpe.
+  - intros f Hf. rewrite map_app in Hf. cbn in Hf. rewrite fixup_next, Hpe.
     unfold ids. rewrite Hbl. cbn [map fst].
     apply in_app_or in Hf as [Hf|[<-|[]]].
     + destruct (B f Hf) as (B1 & B2 & B3). split; [exact B1|split; [|exact B3]].
@@ -351,24 +305,24 @@ Proof.
   - intros w Hw. rewrite chain_end_snoc. apply G. apply D. exact Hw.
   - exact D2.
   - intros o' Hq. apply rm_In in Hq as [Hq Hne']. destruct (E o' Hq) as [E1 E2]. split.
-    + apply St; assumption.
+    + apply St; [apply E1|assumption|exact E1].
     + rewrite map_app. cbn. intro H. apply in_app_or in H as [H|[H|[]]]; [tauto|].
       subst. destruct E1 as (_ & E1b & _). apply E1b. unfold ids. rewrite Eb. left. reflexivity.
-  - exact F.
+  - first [exact F|reflexivity].
 Qed.
 
-Lemma noop_inv O W d o s : Inv O W d s -> In o O -> Inv (rm o O) W d (noop o s).
+Lemma noop_raw_inv O W d o s : Inv O W d s -> In o O -> (pending s = None \/ pending s = Some o) ->
+  Inv (rm o O) W d (noop_raw o s).
 Proof.
-  intros (Hu & Ho & Ho2 & HT) Hin.
+  intros (Hu & Ho & Ho2 & HT) Hin Hp.
   destruct HT as [A B C D D2 E F]. destruct (E o Hin) as [Av Nf].
-  destruct (noop_step o s Hu Ho Av) as (Hu' & Ho' & En & St).
+  destruct (noop_raw_step o s Hu Ho Av) as (Hu' & Ho' & En & St).
   split; [exact Hu'|split; [exact Ho'|split; [exact Ho2|]]].
-  assert (G : forall x, good O s x -> good (rm o O) (noop o s) x).
-  { intros x Hg. unfold good, noop, ids in *. cbn.
-    destruct Hg as [H|[H|[H|H]]]; try tauto.
-    - right; right; left. rewrite H. apply in_or_app. right. left. reflexivity.
-    - right; right; left. destruct (pending s); [apply in_or_app|]; tauto.
-    - destruct (N.eq_dec x o) as [->|Hne']; [tauto|]. right; right; right. apply rm_In. tauto. }
+  assert (G : forall x, good O s x -> good (rm o O) (noop_raw o s) x).
+  { intros x Hg. unfold good, noop_raw, ids in *. cbn.
+    destruct Hg as [H|[H|H]]; try tauto.
+    - destruct Hp as [Hp|Hp]; rewrite Hp in H; [discriminate|]. right; left. exact H.
+    - destruct (N.eq_dec x o) as [->|Hne']; [tauto|]. right; right. apply rm_In. tauto. }
   constructor; unfold froms, CE, rawT in *; cbn.
   - exact A.
   - intros f Hf. destruct (B f Hf) as (B1 & B2 & B3). split; [exact B1|split; [exact B2|]].
@@ -377,8 +331,19 @@ Proof.
   - intros w Hw. apply G. apply D. exact Hw.
   - exact D2.
   - intros o' Hq. apply rm_In in Hq as [Hq Hne']. destruct (E o' Hq) as [E1 E2]. split; [|exact E2].
-    apply St; assumption.
+    apply St; [apply E1|assumption|exact E1].
   - exact F.
+Qed.
+
+Lemma noop_inv O W d o s : Inv O W d s -> In o O -> Inv (rm o O) W d (noop o s).
+Proof.
+  intros H Hin. unfold noop.
+  destruct (pending s) as [p|] eqn:Ep; [destruct (p =? o) eqn:Epo|].
+  - apply N.eqb_eq in Epo. subst p. apply noop_raw_inv; [exact H|exact Hin|right; exact Ep].
+  - apply noop_raw_inv; [|exact Hin|].
+    + apply seal_inv; [exact H|]. intros t [<-|[]]. eapply good_owed; [apply inv_T; exact H|exact Hin].
+    + left. unfold seal. rewrite Ep. reflexivity.
+  - apply noop_raw_inv; [exact H|exact Hin|left; exact Ep].
 Qed.
 
 Lemma push_inv O W d h e s : Inv O W d s -> In h W -> In e W -> Inv O W (S d) (push_loop h e s).
@@ -414,7 +379,11 @@ Lemma loops_emit s : loops (emit s) = loops s. Proof. reflexivity. Qed.
 Lemma loops_add_name x s : loops (add_name x s) = loops s. Proof. reflexivity. Qed.
 Lemma loops_fixup t s : loops (fixup t s) = loops s.
 Proof. unfold fixup. destruct (blocks s) as [|[a b] r]; reflexivity. Qed.
-Lemma loops_noop t s : loops (noop t s) = loops s. Proof. reflexivity. Qed.
+Lemma loops_noop t s : loops (noop t s) = loops s.
+Proof.
+  unfold noop, noop_raw; cbn. destruct (pending s) as [p|]; [destruct (p =? t)|]; try reflexivity.
+  apply loops_seal.
+Qed.
 Lemma loops_seal_unless tm s : loops (seal_unless_terminated tm s) = loops s.
 Proof. unfold seal_unless_terminated. destruct (terminated s); [reflexivity|apply loops_seal]. Qed.
 Lemma loops_push h e s : loops (push_loop h e s) = (h, e) :: loops s. Proof. reflexivity. Qed.
@@ -442,16 +411,14 @@ Proof. intros (_ & _ & _ & HT) Hin. apply (t_owed _ _ _ _ HT o Hin). Qed.
 
 Lemma inv_next_mono_alloc s : next s <= next (snd (alloc s)). Proof. cbn. lia. Qed.
 
-Definition Qe (e : sexpr) := forall O W d s, sc_e e = true -> Inv O W d s ->
+Definition Qe (e : sexpr) := forall O W d s, Inv O W d s ->
   Inv O W d (lower_expr e s) /\ loops (lower_expr e s) = loops s.
-Definition Qes (e : sexprs) := forall O W d s, sc_es e = true -> Inv O W d s ->
+Definition Qes (e : sexprs) := forall O W d s, Inv O W d s ->
   Inv O W d (lower_exprs e s) /\ loops (lower_exprs e s) = loops s.
-Definition Qs (x : sstmt) := forall inl O W d s, sc_s inl x = true -> (inl = true -> (1 <= d)%nat) ->
-  Inv O W d s -> Inv O W d (lower_stmt x s) /\ loops (lower_stmt x s) = loops s.
-Definition Qss (x : sstmts) := forall inl O W d s, sc_ss inl x = true -> (inl = true -> (1 <= d)%nat) ->
-  Inv O W d s -> Inv O W d (lower_stmts x s) /\ loops (lower_stmts x s) = loops s.
-
-Lemma inv_T O W d s : Inv O W d s -> T O W d s. Proof. intros (_ & _ & _ & H). exact H. Qed.
+Definition Qs (x : sstmt) := forall O W d s, Inv O W d s ->
+  Inv O W d (lower_stmt x s) /\ loops (lower_stmt x s) = loops s.
+Definition Qss (x : sstmts) := forall O W d s, Inv O W d s ->
+  Inv O W d (lower_stmts x s) /\ loops (lower_stmts x s) = loops s.
 
 Ltac gow H := eapply good_owed; [apply inv_T; exact H | cbn [In]; tauto].
 Ltac inrm := repeat (apply rm_In; split); [cbn [In]; tauto | lia ..].
@@ -463,9 +430,9 @@ Ltac fin_equiv Hlt :=
 
 Lemma tcase_SIf c t : Qe c -> Qs t -> Qs (SIf c t).
 Proof.
-  intros IHc IHt inl O W d s Hsc Hd H0. cbn [sc_s] in Hsc. apply andb_true_iff in Hsc as [Hc Ht].
+  intros IHc IHt O W d s H0.
   cbn [lower_stmt].
-  destruct (IHc O W d s Hc H0) as [H1 L1]. set (s1 := lower_expr c s) in *.
+  destruct (IHc O W d s H0) as [H1 L1]. set (s1 := lower_expr c s) in *.
   rewrite (alloc_eq s1). cbv beta iota zeta.
   pose proof (alloc_inv_keep O W d s1 H1) as H2.
   rewrite (alloc_eq (snd (alloc s1))). cbv beta iota zeta.
@@ -479,7 +446,7 @@ Proof.
   assert (Hlt : forall o, In o O -> o < next s1) by (intros o Ho; eapply owed_lt; eassumption).
   assert (H5 : Inv (mg :: th :: O) W d (seal (TBr th mg) s4)).
   { apply seal_inv; [exact H4|]. intros x [<-|[<-|[]]]; gow H4. }
-  destruct (IHt inl _ W d _ Ht Hd H5) as [H6 L6].
+  destruct (IHt _ W d _ H5) as [H6 L6].
   assert (H7 : Inv (mg :: th :: O) W d (seal_unless_terminated (TGoto mg) (lower_stmt t (seal (TBr th mg) s4)))).
   { apply seal_unless_inv; [exact H6|]. intros x [<-|[]]. gow H6. }
   destruct (fixup_inv _ W d th _ H7 ltac:(cbn [In]; tauto) (seal_unless_nonempty _ _)) as [H8 _].
@@ -491,10 +458,9 @@ Qed.
 
 Lemma tcase_SIfElse c t e : Qe c -> Qs t -> Qs e -> Qs (SIfElse c t e).
 Proof.
-  intros IHc IHt IHe inl O W d s Hsc Hd H0. cbn [sc_s] in Hsc.
-  apply andb_true_iff in Hsc as [Hsc He]. apply andb_true_iff in Hsc as [Hc Ht].
+  intros IHc IHt IHe O W d s H0.
   cbn [lower_stmt].
-  destruct (IHc O W d s Hc H0) as [H1 L1]. set (s1 := lower_expr c s) in *.
+  destruct (IHc O W d s H0) as [H1 L1]. set (s1 := lower_expr c s) in *.
   rewrite (alloc_eq s1). cbv beta iota zeta.
   pose proof (alloc_inv_keep O W d s1 H1) as H2.
   rewrite (alloc_eq (snd (alloc s1))). cbv beta iota zeta.
@@ -510,11 +476,11 @@ Proof.
   assert (Hlt : forall o, In o O -> o < next s1) by (intros o Ho; eapply owed_lt; eassumption).
   assert (H5 : Inv (mg :: el :: th :: O) W d (seal (TBr th el) s4)).
   { apply seal_inv; [exact H4|]. intros x [<-|[<-|[]]]; gow H4. }
-  destruct (IHt inl _ W d _ Ht Hd H5) as [H6 L6].
+  destruct (IHt _ W d _ H5) as [H6 L6].
   assert (H7 : Inv (mg :: el :: th :: O) W d (seal_unless_terminated (TGoto mg) (lower_stmt t (seal (TBr th el) s4)))).
   { apply seal_unless_inv; [exact H6|]. intros x [<-|[]]. gow H6. }
   destruct (fixup_inv _ W d th _ H7 ltac:(cbn [In]; tauto) (seal_unless_nonempty _ _)) as [H8 _].
-  destruct (IHe inl _ W d _ He Hd H8) as [H9 L9].
+  destruct (IHe _ W d _ H8) as [H9 L9].
   match type of H9 with Inv ?OO _ _ ?st =>
     assert (H10 : Inv OO W d (seal_unless_terminated (TGoto mg) st)) end.
   { apply seal_unless_inv; [exact H9|]. intros x [<-|[]].
@@ -528,7 +494,7 @@ Qed.
 
 Lemma tcase_SWhile c b : Qe c -> Qs b -> Qs (SWhile c b).
 Proof.
-  intros IHc IHb inl O W d s Hsc Hd H0. cbn [sc_s] in Hsc. apply andb_true_iff in Hsc as [Hc Hb].
+  intros IHc IHb O W d s H0.
   cbn [lower_stmt].
   rewrite (alloc_eq s). cbv beta iota zeta.
   pose proof (alloc_inv_keep O W d s H0) as H1.
@@ -545,7 +511,7 @@ Proof.
   assert (Hlt : forall o, In o O -> o < next s) by (intros o Ho; eapply owed_lt; eassumption).
   assert (H4 : Inv (ex :: bd :: hd :: O) W d (seal (TGoto hd) s3)).
   { apply seal_inv; [exact H3|]. intros x [<-|[]]; gow H3. }
-  destruct (IHc _ W d _ Hc H4) as [H5 L5].
+  destruct (IHc _ W d _ H4) as [H5 L5].
   assert (H6 : Inv (ex :: bd :: hd :: O) W d (seal (TBr bd ex) (lower_expr c (seal (TGoto hd) s3)))).
   { apply seal_inv; [exact H5|]. intros x [<-|[<-|[]]]; gow H5. }
   destruct (fixup_inv _ W d hd _ H6 ltac:(cbn [In]; tauto) (seal_nonempty _ _)) as [H7 I7].
@@ -554,7 +520,7 @@ Proof.
                     (fixup hd (seal (TBr bd ex) (lower_expr c (seal (TGoto hd) s3))))).
   { apply inv_watch; [exact H7a|]. eapply good_owed; [apply inv_T; exact H7a|inrm]. }
   pose proof (push_inv _ _ d hd ex _ H7b ltac:(cbn [In]; tauto) ltac:(cbn [In]; tauto)) as H8.
-  destruct (IHb true _ _ (S d) _ Hb ltac:(intros _; lia) H8) as [H9 L9].
+  destruct (IHb _ _ (S d) _ H8) as [H9 L9].
   match type of H9 with Inv ?OO ?WW _ ?st =>
     assert (H10 : Inv OO WW (S d) (seal_unless_terminated (TGoto hd) st)) end.
   { apply seal_unless_inv; [exact H9|]. intros x [<-|[]].
@@ -574,12 +540,10 @@ Qed.
 
 Lemma tcase_SFor n lo hi stp b : Qe lo -> Qe hi -> Qe stp -> Qs b -> Qs (SFor n lo hi stp b).
 Proof.
-  intros IHlo IHhi IHst IHb inl O W d s Hsc Hd H0. cbn [sc_s] in Hsc.
-  apply andb_true_iff in Hsc as [Hsc Hb]. apply andb_true_iff in Hsc as [Hsc Hst].
-  apply andb_true_iff in Hsc as [Hlo Hhi].
+  intros IHlo IHhi IHst IHb O W d s H0.
   cbn [lower_stmt].
-  destruct (IHlo _ _ _ _ Hlo (add_name_inv n _ _ _ _ H0)) as [Ha La].
-  destruct (IHhi _ _ _ _ Hhi (emit_inv _ _ _ _ Ha)) as [Hb2 Lb].
+  destruct (IHlo _ _ _ _ (add_name_inv n _ _ _ _ H0)) as [Ha La].
+  destruct (IHhi _ _ _ _ (emit_inv _ _ _ _ Ha)) as [Hb2 Lb].
   pose proof (emit_inv _ _ _ _ Hb2) as H2.
   set (s2 := emit (lower_expr hi (emit (lower_expr lo (add_name n s))))) in *.
   assert (L2 : loops s2 = loops s).
@@ -613,14 +577,14 @@ Proof.
     - eapply good_owed; [apply inv_T; exact H8a|inrm].
     - eapply good_owed; [apply inv_T; apply inv_watch; [exact H8a|eapply good_owed; [apply inv_T; exact H8a|inrm]]|inrm]. }
   pose proof (push_inv _ _ d inc ex _ H8b ltac:(cbn [In]; tauto) ltac:(cbn [In]; tauto)) as H9.
-  destruct (IHb true _ _ (S d) _ Hb ltac:(intros _; lia) H9) as [H10 L10].
+  destruct (IHb _ _ (S d) _ H9) as [H10 L10].
   match type of H10 with Inv ?OO ?WW _ ?st =>
     assert (H11 : Inv OO WW (S d) (seal_unless_terminated (TGoto inc) st)) end.
   { apply seal_unless_inv; [exact H10|]. intros x [<-|[]].
     eapply good_owed; [apply inv_T; exact H10|inrm]. }
   destruct (fixup_inv _ _ (S d) bd _ H11 ltac:(inrm) (seal_unless_nonempty _ _)) as [H12 _].
   pose proof (pop_inv _ _ d _ H12) as H13.
-  destruct (IHst _ _ d _ Hst H13) as [H14 L14].
+  destruct (IHst _ _ d _ H13) as [H14 L14].
   apply emit_inv in H14.
   match type of H14 with Inv ?OO ?WW _ ?st =>
     assert (H15 : Inv OO WW d (seal (TGoto hd) st)) end.
@@ -639,10 +603,9 @@ Qed.
 
 Lemma tcase_SForEach n it b : Qe it -> Qs b -> Qs (SForEach n it b).
 Proof.
-  intros IHit IHb inl O W d s Hsc Hd H0. cbn [sc_s] in Hsc.
-  apply andb_true_iff in Hsc as [Hit Hb].
+  intros IHit IHb O W d s H0.
   cbn [lower_stmt].
-  destruct (IHit _ _ _ _ Hit H0) as [Ha La].
+  destruct (IHit _ _ _ _ H0) as [Ha La].
   pose proof (add_name_inv n _ _ _ _ (emit_inv _ _ _ _ Ha)) as H2.
   set (s2 := add_name n (emit (lower_expr it s))) in *.
   assert (L2 : loops s2 = loops s) by (subst s2; lp; exact La).
@@ -676,7 +639,7 @@ Proof.
     - eapply good_owed; [apply inv_T; apply inv_watch; [exact H8a|eapply good_owed; [apply inv_T; exact H8a|inrm]]|inrm]. }
   apply emit_inv in H8b.
   pose proof (push_inv _ _ d inc ex _ H8b ltac:(cbn [In]; tauto) ltac:(cbn [In]; tauto)) as H9.
-  destruct (IHb true _ _ (S d) _ Hb ltac:(intros _; lia) H9) as [H10 L10].
+  destruct (IHb _ _ (S d) _ H9) as [H10 L10].
   match type of H10 with Inv ?OO ?WW _ ?st =>
     assert (H11 : Inv OO WW (S d) (seal_unless_terminated (TGoto inc) st)) end.
   { apply seal_unless_inv; [exact H10|]. intros x [<-|[]].
@@ -700,9 +663,9 @@ Qed.
 
 Lemma tcase_EShort a l r : Qe l -> Qe r -> Qe (EShort a l r).
 Proof.
-  intros IHl IHr O W d s Hsc H0. cbn [sc_e] in Hsc. apply andb_true_iff in Hsc as [Hl Hr].
+  intros IHl IHr O W d s H0.
   cbn [lower_expr].
-  destruct (IHl _ _ _ _ Hl H0) as [Ha La]. apply emit_inv in Ha.
+  destruct (IHl _ _ _ _ H0) as [Ha La]. apply emit_inv in Ha.
   set (s1 := emit (lower_expr l s)) in *.
   assert (L1 : loops s1 = loops s) by (subst s1; lp; exact La).
   rewrite (alloc_eq s1). cbv beta iota zeta.
@@ -716,7 +679,7 @@ Proof.
   assert (Hlt : forall o, In o O -> o < next s1) by (intros o Ho; eapply owed_lt; eassumption).
   assert (H4 : Inv (mg :: er :: O) W d (seal (if a then TBr er mg else TBr mg er) s3)).
   { apply seal_inv; [exact A2|]. destruct a; intros x [<-|[<-|[]]]; gow A2. }
-  destruct (IHr _ _ _ _ Hr H4) as [H5 L5]. apply emit_inv in H5.
+  destruct (IHr _ _ _ _ H4) as [H5 L5]. apply emit_inv in H5.
   match type of H5 with Inv ?OO ?WW _ ?st =>
     assert (H6 : Inv OO WW d (seal (TGoto mg) st)) end.
   { apply seal_inv; [exact H5|]. intros x [<-|[]]. gow H5. }
@@ -729,10 +692,9 @@ Qed.
 
 Lemma tcase_EIfE c t e : Qe c -> Qe t -> Qe e -> Qe (EIfE c t e).
 Proof.
-  intros IHc IHt IHe O W d s Hsc H0. cbn [sc_e] in Hsc.
-  apply andb_true_iff in Hsc as [Hsc He]. apply andb_true_iff in Hsc as [Hc Ht].
+  intros IHc IHt IHe O W d s H0.
   cbn [lower_expr].
-  destruct (IHc O W d s Hc H0) as [H1 L1]. set (s1 := lower_expr c s) in *.
+  destruct (IHc O W d s H0) as [H1 L1]. set (s1 := lower_expr c s) in *.
   rewrite (alloc_eq s1). cbv beta iota zeta.
   pose proof (alloc_inv_keep O W d s1 H1) as H2.
   rewrite (alloc_eq (snd (alloc s1))). cbv beta iota zeta.
@@ -748,12 +710,12 @@ Proof.
   assert (Hlt : forall o, In o O -> o < next s1) by (intros o Ho; eapply owed_lt; eassumption).
   assert (H5 : Inv (mg :: el :: th :: O) W d (seal (TBr th el) s4)).
   { apply seal_inv; [exact H4|]. intros x [<-|[<-|[]]]; gow H4. }
-  destruct (IHt _ W d _ Ht H5) as [H6 L6]. apply emit_inv in H6.
+  destruct (IHt _ W d _ H5) as [H6 L6]. apply emit_inv in H6.
   match type of H6 with Inv ?OO ?WW _ ?st =>
     assert (H7 : Inv OO WW d (seal (TGoto mg) st)) end.
   { apply seal_inv; [exact H6|]. intros x [<-|[]]. gow H6. }
   destruct (fixup_inv _ W d th _ H7 ltac:(cbn [In]; tauto) (seal_nonempty _ _)) as [H8 _].
-  destruct (IHe _ W d _ He H8) as [H9 L9]. apply emit_inv in H9.
+  destruct (IHe _ W d _ H8) as [H9 L9]. apply emit_inv in H9.
   match type of H9 with Inv ?OO ?WW _ ?st =>
     assert (H10 : Inv OO WW d (seal (TGoto mg) st)) end.
   { apply seal_inv; [exact H9|]. intros x [<-|[]].
@@ -775,12 +737,14 @@ Proof.
   - intros [<-|[<-|[]]]; [exists a|exists b]; split; cbn; tauto.
 Qed.
 
-Lemma new_fn_lost f : Inv [] [] 0 f ->
-  lost_ok (mkfn (map (fun b => (fst b, resolve_term (aliases f) (snd b))) (rev (blocks f)))
-                (pending f) (dropped f)).
+Lemma new_fn_lost f : Inv [] [] 0 f -> pending f = None ->
+  lost_ok (mkfn (map (fun b => (fst b, resolve_term (aliases f) (snd b))) (rev (blocks f)))).
 Proof.
-  intros (Hu & Ho & Ho2 & HT). unfold lost_ok, dangling_all_lost. cbn [f_blocks].
-  apply forallb_forall. intros t Ht. unfold dangling in Ht. apply filter_In in Ht as [Ht Hn].
+  intros (Hu & Ho & Ho2 & HT) Hp. unfold lost_ok. cbn [f_blocks].
+  destruct (dangling _) as [|t r] eqn:Ed; [reflexivity|exfalso].
+  assert (Ht : In t (dangling (map (fun b => (fst b, resolve_term (aliases f) (snd b))) (rev (blocks f)))))
+    by (rewrite Ed; left; reflexivity).
+  clear Ed. unfold dangling in Ht. apply filter_In in Ht as [Ht Hn].
   apply in_flat_map in Ht as [b' [Hb' Ht]]. apply in_map_iff in Hb' as [b [<- Hb]].
   cbn [snd] in Ht. apply targets_resolve in Ht as [t0 [Ht0 ->]].
   apply in_rev in Hb.
@@ -788,11 +752,9 @@ Proof.
   pose proof (t_raw _ _ _ _ HT t0 Hraw) as Hg. unfold CE in Hg.
   rewrite <- (resolve_is_chain _ _ (t_wf _ _ _ _ HT)) in Hg.
   apply negb_true_iff in Hn. apply memN_false in Hn.
-  unfold lost_ids. cbn [f_open f_dropped]. apply memN_In.
-  destruct Hg as [H|[H|[H|[]]]].
-  - exfalso. apply Hn. rewrite map_map. cbn [fst]. rewrite map_rev. apply -> in_rev. exact H.
-  - rewrite H. left. reflexivity.
-  - apply in_or_app. right. exact H.
+  destruct Hg as [H|[H|[]]].
+  - apply Hn. rewrite map_map. cbn [fst]. rewrite map_rev. apply -> in_rev. exact H.
+  - congruence.
 Qed.
 
 Lemma finalize_inv O W d s : Inv O W d s -> Inv O W d (finalize s) /\ loops (finalize s) = loops s.
@@ -813,90 +775,85 @@ Proof.
   - intros w [].
   - intros h e [].
   - intros o [].
-  - lia.
+  - reflexivity.
 Qed.
 
-Lemma tcase_fn caps params body O W d s : Qss body -> sc_ss false body = true -> Inv O W d s ->
+Lemma tcase_fn caps params body O W d s : Qss body -> Inv O W d s ->
   Inv O W d (fn_exit s (lower_stmts body (fn_enter caps params s)))
   /\ loops (fn_exit s (lower_stmts body (fn_enter caps params s))) = loops s.
 Proof.
-  intros IH Hsc H0.
+  intros IH H0.
   pose proof (fn_enter_inv caps params _ _ _ _ H0) as He.
-  destruct (IH false [] [] 0%nat _ Hsc ltac:(discriminate) He) as [Hb Lb].
+  destruct (IH [] [] 0%nat _ He) as [Hb Lb].
   set (be := lower_stmts body (fn_enter caps params s)) in *.
   destruct (finalize_inv _ _ _ _ Hb) as [Hf Lf].
-  assert (LL : loops (fn_exit s be) = loops s).
-  { unfold fn_exit. cbn [loops]. rewrite Lf, Lb. reflexivity. }
-  split; [|exact LL].
+  split; [|reflexivity].
   destruct H0 as (Hu & Ho & Ho2 & HT).
   destruct Hb as (Ub & Ob & Ob2 & Tb).
   destruct (fn_exit_step s be Hu Ho Ub Ob) as (Ux & Ox & _ & _).
   split; [exact Ux|split; [exact Ox|split]].
   - unfold OutOK2, fn_exit. cbn [out]. apply Forall_app. split.
     + destruct Hf as (_ & _ & X & _). exact X.
-    + constructor; [|constructor]. apply new_fn_lost. exact Hf.
+    + constructor; [|constructor]. apply new_fn_lost; [exact Hf|apply finalize_pending].
   - destruct HT as [A B C D D2 E F].
-    constructor; unfold froms, rawT, CE, good, ids, avail in *; unfold fn_exit; cbn; try assumption.
-    + fold (finalize be). rewrite Lf, Lb. cbn [fn_enter loops]. exact D2.
-    + fold (finalize be). rewrite Lf, Lb. cbn [fn_enter loops]. exact F.
+    constructor; unfold froms, rawT, CE, good, ids, avail in *; unfold fn_exit; cbn; assumption.
 Qed.
 
 Theorem lower_targets :
   (forall e, Qe e) /\ (forall e, Qes e) /\ (forall x, Qs x) /\ (forall x, Qss x).
 Proof.
   apply skel_mutind.
-  - intros O W d s _ H. split; [exact H|reflexivity].
-  - intros x O W d s _ H. cbn [lower_expr]. destruct (memN x (names s)); [split; [exact H|reflexivity]|].
+  - intros O W d s H. split; [exact H|reflexivity].
+  - intros x O W d s H. cbn [lower_expr]. destruct (memN x (names s)); [split; [exact H|reflexivity]|].
     split; [apply emit_inv; exact H|reflexivity].
-  - intros em args IH O W d s Hsc H. cbn [sc_e] in Hsc. cbn [lower_expr].
-    destruct (IH _ _ _ _ Hsc H) as [H1 L1]. destruct em; [|split; assumption].
+  - intros em args IH O W d s H. cbn [lower_expr].
+    destruct (IH _ _ _ _ H) as [H1 L1]. destruct em; [|split; assumption].
     split; [apply emit_inv; exact H1|lp; exact L1].
   - intros a l IHl r IHr. apply tcase_EShort; assumption.
   - intros c IHc t IHt e IHe. apply tcase_EIfE; assumption.
-  - intros caps params body IH O W d s Hsc H. cbn [sc_e] in Hsc. cbn [lower_expr].
-    destruct (tcase_fn caps params body O W d s IH Hsc H) as [H1 L1].
+  - intros caps params body IH O W d s H. cbn [lower_expr].
+    destruct (tcase_fn caps params body O W d s IH H) as [H1 L1].
     split; [apply emit_inv; exact H1|lp; exact L1].
-  - intros O W d s _ H. split; [exact H|reflexivity].
-  - intros e IHe r IHr O W d s Hsc H. cbn [sc_es] in Hsc. apply andb_true_iff in Hsc as [He Hr].
-    cbn [lower_exprs]. destruct (IHe _ _ _ _ He H) as [H1 L1].
-    destruct (IHr _ _ _ _ Hr H1) as [H2 L2]. split; [exact H2|rewrite L2; exact L1].
-  - intros e IH inl O W d s Hsc _ H. cbn [sc_s] in Hsc. apply IH; assumption.
-  - intros x e IH inl O W d s Hsc _ H. cbn [sc_s] in Hsc. cbn [lower_stmt].
-    destruct (IH _ _ _ _ Hsc (add_name_inv x _ _ _ _ H)) as [H1 L1].
+  - intros O W d s H. split; [exact H|reflexivity].
+  - intros e IHe r IHr O W d s H.
+    cbn [lower_exprs]. destruct (IHe _ _ _ _ H) as [H1 L1].
+    destruct (IHr _ _ _ _ H1) as [H2 L2]. split; [exact H2|rewrite L2; exact L1].
+  - intros e IH O W d s H. apply IH; assumption.
+  - intros x e IH O W d s H. cbn [lower_stmt].
+    destruct (IH _ _ _ _ (add_name_inv x _ _ _ _ H)) as [H1 L1].
     split; [apply emit_inv; exact H1|lp; rewrite L1; lp; reflexivity].
-  - intros b IH inl O W d s Hsc Hd H. cbn [sc_s] in Hsc. cbn [lower_stmt]. eapply IH; eassumption.
+  - intros b IH O W d s H. cbn [lower_stmt]. apply IH; assumption.
   - intros c IHc t IHt. apply tcase_SIf; assumption.
   - intros c IHc t IHt e IHe. apply tcase_SIfElse; assumption.
   - intros c IHc b IHb. apply tcase_SWhile; assumption.
   - intros x lo IHlo hi IHhi stp IHst b IHb. apply tcase_SFor; assumption.
   - intros x it IHit b IHb. apply tcase_SForEach; assumption.
-  - intros inl O W d s _ _ H. cbn [lower_stmt]. split; [apply seal_inv; [exact H|intros t []]|apply loops_seal].
-  - intros e IH inl O W d s Hsc _ H. cbn [sc_s] in Hsc. cbn [lower_stmt].
-    destruct (IH _ _ _ _ Hsc H) as [H1 L1].
+  - intros O W d s H. cbn [lower_stmt]. split; [apply seal_inv; [exact H|intros t []]|apply loops_seal].
+  - intros e IH O W d s H. cbn [lower_stmt].
+    destruct (IH _ _ _ _ H) as [H1 L1].
     split; [apply seal_inv; [exact H1|intros t []]|rewrite loops_seal; exact L1].
-  - intros inl O W d s Hsc Hd H. cbn [sc_s] in Hsc. specialize (Hd Hsc). cbn [lower_stmt].
+  - intros O W d s H. cbn [lower_stmt].
     destruct (loops s) as [|[h e] r] eqn:El; [split; [exact H|exact El]|].
     split; [|rewrite loops_seal; exact El].
     apply seal_inv; [exact H|]. intros t [<-|[]].
     pose proof (inv_T _ _ _ _ H) as HT.
     assert (Hin : In (h, e) (firstn d (loops s))).
-    { rewrite El. destruct d; [lia|]. left. reflexivity. }
+    { rewrite (t_depth _ _ _ _ HT), El. left. reflexivity. }
     apply (t_watch _ _ _ _ HT). apply (proj2 (t_loop _ _ _ _ HT h e Hin)).
-  - intros inl O W d s Hsc Hd H. cbn [sc_s] in Hsc. specialize (Hd Hsc). cbn [lower_stmt].
+  - intros O W d s H. cbn [lower_stmt].
     destruct (loops s) as [|[h e] r] eqn:El; [split; [exact H|exact El]|].
     split; [|rewrite loops_seal; exact El].
     apply seal_inv; [exact H|]. intros t [<-|[]].
     pose proof (inv_T _ _ _ _ H) as HT.
     assert (Hin : In (h, e) (firstn d (loops s))).
-    { rewrite El. destruct d; [lia|]. left. reflexivity. }
+    { rewrite (t_depth _ _ _ _ HT), El. left. reflexivity. }
     apply (t_watch _ _ _ _ HT). apply (proj1 (t_loop _ _ _ _ HT h e Hin)).
-  - intros caps params body IH inl O W d s Hsc _ H. cbn [sc_s] in Hsc. cbn [lower_stmt].
-    apply tcase_fn; assumption.
-  - intros inl O W d s _ _ H. split; [exact H|reflexivity].
-  - intros inl O W d s _ _ H. split; [exact H|reflexivity].
-  - intros x IHx r IHr inl O W d s Hsc Hd H. cbn [sc_ss] in Hsc. apply andb_true_iff in Hsc as [Hx Hr].
-    cbn [lower_stmts]. destruct (IHx _ _ _ _ _ Hx Hd H) as [H1 L1].
-    destruct (IHr _ _ _ _ _ Hr Hd H1) as [H2 L2]. split; [exact H2|rewrite L2; exact L1].
+  - intros caps params body IH O W d s H. cbn [lower_stmt]. apply tcase_fn; assumption.
+  - intros O W d s H. split; [exact H|reflexivity].
+  - intros O W d s H. split; [exact H|reflexivity].
+  - intros x IHx r IHr O W d s H.
+    cbn [lower_stmts]. destruct (IHx _ _ _ _ H) as [H1 L1].
+    destruct (IHr _ _ _ _ H1) as [H2 L2]. split; [exact H2|rewrite L2; exact L1].
 Qed.
 
 Lemma init_inv : Inv [] [] 0 init.
@@ -910,46 +867,31 @@ Proof.
     + intros w [].
     + intros h e [].
     + intros o [].
-    + lia.
+    + reflexivity.
 Qed.
 
-Lemma lower_top_inv p : breaks_scoped p = true -> forall s, Inv [] [] 0 s -> Inv [] [] 0 (lower_top p s).
+Lemma lower_top_inv p : forall s, Inv [] [] 0 s -> Inv [] [] 0 (lower_top p s).
 Proof.
-  unfold breaks_scoped. induction p as [|x r IH]; intros Hsc s H.
+  induction p as [|x r IH]; intros s H.
   - exact H.
-  - cbn [sc_ss] in Hsc. apply andb_true_iff in Hsc as [Hx Hr]. cbn [lower_top].
-    destruct x; try (apply IH; assumption).
-    cbn [sc_s] in Hx. apply IH; [exact Hr|].
-    apply (tcase_fn caps params body [] [] 0%nat s (proj2 (proj2 (proj2 lower_targets)) body) Hx H).
+  - cbn [lower_top]. destruct x; try (apply IH; assumption).
+    apply IH.
+    apply (tcase_fn caps params body [] [] 0%nat s (proj2 (proj2 (proj2 lower_targets)) body) H).
 Qed.
 
-(* UNBOUNDED: for every program whose break/continue statements sit inside a loop of the same
-   function, every dangling branch target of every lowered function is a pending id that was
-   lost at the end of the function or overwritten *)
-Theorem lower_dangling_only_lost :
-  forall p, breaks_scoped p = true -> forall f, In f (lower p) -> dangling_all_lost f = true.
+(* UNBOUNDED: no function of any program has a dangling branch target *)
+Theorem lower_no_dangling : forall p f, In f (lower p) -> dangling (f_blocks f) = [].
 Proof.
-  intros p Hsc f Hin. unfold lower in Hin.
-  destruct (lower_top_inv p Hsc init init_inv) as (_ & _ & Ho2 & _).
+  intros p f Hin. unfold lower in Hin.
+  destruct (lower_top_inv p init init_inv) as (_ & _ & Ho2 & _).
   unfold OutOK2 in Ho2. rewrite Forall_forall in Ho2. apply Ho2. exact Hin.
 Qed.
 
-(* the guarded full statement, unbounded *)
-Theorem lower_wf_outside_known_classes :
-  forall p, breaks_scoped p = true -> forall f, In f (lower p) -> known_class f = false -> wf_fn f = true.
+(* the full statement: entry block, unique ids, every branch targets an existing block *)
+Theorem lower_wf_all : forall p, wf_prog (lower p) = true.
 Proof.
-  intros p Hsc f Hin Hk. destruct (lower_entry_and_unique_ids p f Hin) as [He Hu].
-  apply good_not_known_wf; [|exact Hk]. unfold fn_good. rewrite He, Hu.
-  rewrite (lower_dangling_only_lost p Hsc f Hin). reflexivity.
+  intro p. unfold wf_prog. apply forallb_forall. intros f Hin.
+  destruct (lower_entry_and_unique_ids p f Hin) as [He Hu].
+  unfold wf_fn, wf_cfg. rewrite He, Hu. cbn.
+  apply no_dangling_targets_exist. apply (lower_no_dangling p f Hin).
 Qed.
-
-(* without the scoping guard: `fn f(c) { while c { fn g() { break } } }` -- lower_function does
-   not save loop_stack, so g jumps to a block id of f (reproduced with --emit-air; the bytecode
-   compiler rejects the program with E0207) *)
-Definition w_unscoped : sstmts :=
-  one_fn [0] (SCons (SWhile (EIdent 0) (SBlock (SCons (SFn [] [] (SCons SBreak SNil)) SNil))) SNil).
-Lemma unscoped_break_witness :
-  lower w_unscoped = [mkfn [(0, TGoto 2)] None []; mkfn [(3, TGoto 1); (1, TBr 1 2)] (Some 2) []]
-  /\ breaks_scoped w_unscoped = false
-  /\ dangling_all_lost (mkfn [(0, TGoto 2)] None []) = false.
-Proof. vm_compute. repeat split; reflexivity. Qed.
